@@ -3,6 +3,7 @@ package c13
 import (
 	"bytes"
 	"fmt"
+	"io"
 	"math/big"
 	"os"
 	"path/filepath"
@@ -55,15 +56,97 @@ type keptElems struct {
 }
 
 type wrapHist struct {
-	t     *rapid.T
-	f     inst.Field
-	kb    []*keptBytes
-	ke    []*keptElems
-	trace []string
+	t      *rapid.T
+	f      inst.Field
+	kb     []*keptBytes
+	ke     []*keptElems
+	guards []writeGuard
+	trace  []string
+}
+
+// writeGuard watches the spare capacity behind a slice that was handed to Write.
+type writeGuard struct {
+	origin string
+	tail   []byte
+}
+
+var bigChunks = []int{1023, 1024, 1025, 2048, 4096, 32768}
+
+// patBytes is a cheap deterministic byte pattern (xorshift) of length n.
+func patBytes(n int, seed uint64) []byte {
+	b := make([]byte, n)
+	x := seed | 1
+	for i := range b {
+		x ^= x << 13
+		x ^= x >> 7
+		x ^= x << 17
+		b[i] = byte(x >> 24)
+	}
+	return b
+}
+
+// write hands c to Write through a caller-owned buffer with `spare` bytes of spare capacity (filled
+// with a sentinel that must never change), then overwrites the buffer (the caller reuses it).
+func (w *wrapHist) write(in *wrapInst, c []byte, spare int) {
+	backing := make([]byte, len(c)+spare)
+	copy(backing, c)
+	for i := len(c); i < len(backing); i++ {
+		backing[i] = sentinel
+	}
+	buf := backing[:len(c)]
+	k, err := in.h.Write(buf)
+	if k != len(c) || err != nil {
+		w.t.Fatalf("%s: Write(%d bytes) = %d, %v", w.f.Name(), len(c), k, err)
+	}
+	in.model = append(in.model, c...)
+	for j := range buf { // the caller may reuse its buffer after Write
+		buf[j] ^= 0x5a
+	}
+	op := fmt.Sprintf("%s.Write(%d bytes, spare %d)", in.name, len(c), spare)
+	if len(c) <= 16 {
+		op = fmt.Sprintf("%s.Write(%x, spare %d)", in.name, c, spare)
+	}
+	w.trace = append(w.trace, op)
+	if spare > 0 {
+		w.guards = append(w.guards, writeGuard{origin: op, tail: backing[len(c):]})
+	}
+	w.verify(op)
+}
+
+type onlyReader struct{ r io.Reader }
+
+func (o onlyReader) Read(p []byte) (int, error) { return o.r.Read(p) }
+
+type onlyWriter struct{ h hashHash }
+
+func (o onlyWriter) Write(p []byte) (int, error) { return o.h.Write(p) }
+
+// stream copies msg into the hasher with io.CopyBuffer through one reused buffer of bs bytes.
+func (w *wrapHist) stream(in *wrapInst, msg []byte, bs int) {
+	buf := make([]byte, bs)
+	n, err := io.CopyBuffer(onlyWriter{in.h}, onlyReader{bytes.NewReader(msg)}, buf)
+	if err != nil || int(n) != len(msg) {
+		w.t.Fatalf("%s: io.CopyBuffer = %d, %v", w.f.Name(), n, err)
+	}
+	in.model = append(in.model, msg...)
+	for j := range buf {
+		buf[j] = 0xC3
+	}
+	op := fmt.Sprintf("%s.CopyBuffer(%d bytes, buffer %d)", in.name, len(msg), bs)
+	w.trace = append(w.trace, op)
+	w.verify(op)
 }
 
 // verify compares every retained value with its snapshot; called after every library call.
 func (w *wrapHist) verify(after string) {
+	for _, g := range w.guards {
+		for i, b := range g.tail {
+			if b != sentinel {
+				w.t.Fatalf("%s: the spare capacity behind the slice passed to %s was written to (offset %d) by/before %s\nhistory: %s",
+					w.f.Name(), g.origin, i, after, strings.Join(w.trace, " "))
+			}
+		}
+	}
 	for _, k := range w.kb {
 		if !bytes.Equal(k.got, k.snap) {
 			w.t.Fatalf("%s: the slice returned earlier by %s was modified by the later call %s: now %x, was %x\nhistory: %s",
@@ -175,21 +258,36 @@ func propWrapper(t *rapid.T, f inst.Field) {
 	size := f.Bytes()
 	for i := 0; i < steps; i++ {
 		in := insts[rapid.IntRange(0, len(insts)-1).Draw(t, "inst")]
-		switch rapid.IntRange(0, 11).Draw(t, "op") {
+		switch rapid.IntRange(0, 12).Draw(t, "op") {
 		case 0, 1, 2:
-			c := rapid.SliceOfN(rapid.Byte(), 0, 70).Draw(t, "chunk")
-			c0 := append([]byte{}, c...)
-			k, err := in.h.Write(c)
-			if k != len(c) || err != nil {
-				t.Fatalf("%s: Write(%d bytes) = %d, %v", f.Name(), len(c), k, err)
+			// chunk: usually short; sometimes a long one (1023..32768 bytes, content from a drawn seed) -
+			// long chunks preferably as the FIRST chunk of the message - always followed by more data
+			var c []byte
+			long := rapid.IntRange(0, 3).Draw(t, "long") == 0
+			if long {
+				n := rapid.SampledFrom(bigChunks).Draw(t, "chunkLen")
+				if len(in.model) > 0 && rapid.Bool().Draw(t, "resetFirst") {
+					in.h.Reset()
+					in.model = nil
+					w.trace = append(w.trace, in.name+".Reset")
+					w.verify("Reset")
+				}
+				c = patBytes(n, rapid.Uint64().Draw(t, "chunkSeed"))
+			} else {
+				c = rapid.SliceOfN(rapid.Byte(), 0, 70).Draw(t, "chunk")
 			}
-			in.model = append(in.model, c0...)
-			// the caller may reuse its buffer after Write
-			for j := range c {
-				c[j] ^= 0x5a
+			first := len(in.model) == 0
+			w.write(in, c, rapid.SampledFrom([]int{0, 0, 1, 64, 4096}).Draw(t, "writeSpare"))
+			if long {
+				// the message continues
+				w.write(in, rapid.SliceOfN(rapid.Byte(), 1, 40).Draw(t, "more"), 0)
+				if first && len(c) >= 1024 {
+					cls["first_chunk>=1024+continued"] = true
+				}
+				cls[fmt.Sprintf("chunk_len:%d", len(c))] = true
+				// and the digest is taken right away, while the caller's buffers are dirty
+				cls[w.sum(in, 0, nil, 0)] = true
 			}
-			w.trace = append(w.trace, fmt.Sprintf("%s.Write(%x)", in.name, c0))
-			w.verify("Write")
 		case 3:
 			in.h.Reset()
 			in.model = nil
@@ -250,6 +348,19 @@ func propWrapper(t *rapid.T, f inst.Field) {
 			}
 			w.ke = append(w.ke, k)
 			cls["helper_slice_kept"] = true
+		case 12:
+			// streaming: io.CopyBuffer through a caller-owned buffer that is reused for every Read
+			n := rapid.SampledFrom([]int{1500, 3000, 5000, 40000}).Draw(t, "streamLen")
+			bs := rapid.SampledFrom([]int{512, 1024, 2048, 32768}).Draw(t, "bufLen")
+			if rapid.Bool().Draw(t, "resetFirst") {
+				in.h.Reset()
+				in.model = nil
+				w.trace = append(w.trace, in.name+".Reset")
+			}
+			w.stream(in, patBytes(n, rapid.Uint64().Draw(t, "streamSeed")), bs)
+			cls["streamed_through_reused_buffer"] = true
+			cls[fmt.Sprintf("stream_buffer:%d", bs)] = true
+			cls[w.sum(in, 0, nil, 0)] = true
 		case 11:
 			n := rapid.SampledFrom([]int{1, 31, 32, 33, 64, 100}).Draw(t, "xmdLen")
 			got, err := libXmd(t, in.model, in.dst, n)
@@ -345,6 +456,36 @@ func wrapperFixed(t *testing.T, f inst.Field) {
 			t.Fatalf("%s: Sum wrote beyond len(b)+Size()", f.Name())
 		}
 	}
+	// long first chunk through a reused buffer with spare capacity, message continued; streaming = one shot
+	for _, n := range bigChunks {
+		h := p.F("New", dst)[0].(hashHash)
+		msg := patBytes(n, uint64(n))
+		backing := append(append([]byte{}, msg...), bytes.Repeat([]byte{sentinel}, 128)...)
+		h.Write(backing[:n])
+		for i := 0; i < n; i++ {
+			backing[i] = 0
+		}
+		h.Write([]byte("tail"))
+		if got := h.Sum(nil); !bytes.Equal(got, dig(append(append([]byte{}, msg...), "tail"...))) {
+			t.Fatalf("%s: Write(%d-byte first chunk) + caller reuses its buffer + Write(more): Sum = %x, want the digest of the bytes that were written", f.Name(), n, got)
+		}
+		for i := n; i < len(backing); i++ {
+			if backing[i] != sentinel {
+				t.Fatalf("%s: after Write(%d-byte first chunk) + Write(more) the spare capacity of the caller's first buffer was written to", f.Name(), n)
+			}
+		}
+	}
+	for _, bs := range []int{512, 1024, 2048, 32768} {
+		h := p.F("New", dst)[0].(hashHash)
+		msg := patBytes(40000, uint64(bs))
+		if _, err := io.CopyBuffer(onlyWriter{h}, onlyReader{bytes.NewReader(msg)}, make([]byte, bs)); err != nil {
+			t.Fatal(err)
+		}
+		if got := h.Sum(nil); !bytes.Equal(got, dig(msg)) {
+			t.Fatalf("%s: 40000 bytes streamed with io.CopyBuffer(buffer %d): Sum = %x, one-shot digest %x", f.Name(), bs, got, dig(msg))
+		}
+	}
+	rep.Case(T, f.Name()+" fixed history (long chunks, streaming)", true, "first_chunk>=1024+continued", "streamed_through_reused_buffer", "fixed_history")
 	rep.Case(T, f.Name()+" fixed history", true, "sum_nil_kept_across_calls", "returned_scribbled", "prefix_with_spare_capacity", "second_instance", "fixed_history")
 }
 
